@@ -19,7 +19,7 @@ RULE = ("heartbeat streams of 1-40 heartbeats with strictly increasing timestamp
         "heartbeats whose end ties with the previous event's end) × pulsetimes {0, fractional, large}, fed through "
         "get(limit=1) -> heartbeat_merge -> replace_last | insert on each backend, in a store that also holds 1-2 "
         "other buckets (created before and after) whose events start and end at the stream's own instants, some of them "
-        "written while the stream is being fed; now and then a bucket-management call that the store refuses (delete / update of a missing bucket, create of an existing one) between two heartbeats; some streams keep one activity alive for more than a day (merged duration > 24 h); in a quarter of the cases the "
+        "written while the stream is being fed; now and then an accepted bucket-management call or read between two heartbeats (metadata updates of the stream's own bucket and of another one, a scratch bucket created, filled and deleted, counts / lookups / a second Bucket wrapper) or one that the store refuses (delete / update of a missing bucket, create of an existing one) between two heartbeats; some streams keep one activity alive for more than a day (merged duration > 24 h); in a quarter of the cases the "
         "bucket is deleted and re-created mid-stream and the stream carries on; after EVERY "
         "heartbeat the bucket is compared with heartbeat_reduce(prefix) (real transform and integer reference) and "
         "the other buckets with their initial dump; evaluations = heartbeats; non-trivial = stream has a merge and a "
@@ -110,7 +110,41 @@ def gen_case(rng, ctx):
     # bucket-management calls that the store refuses, issued between two heartbeats (after the write, before the next read)
     faults = {str(rng.randrange(0, n)): rng.choice(["delete_missing_bucket", "create_existing", "update_missing_bucket"])
               for _ in range(rng.choice([0, 0, 1, 2]))}
-    return dict(backend=backend, stream=stream, pulse_us=pu, others=others, recreate_at=recreate_at, faults=faults)
+    # bucket-management calls and reads the store accepts, issued between two heartbeats: none of them is a write to
+    # the stream's events
+    benign = {str(rng.randrange(0, n)): rng.choice(_BENIGN) for _ in range(rng.choice([0, 0, 1, 2, 3]))}
+    return dict(backend=backend, stream=stream, pulse_us=pu, others=others, recreate_at=recreate_at, faults=faults,
+                benign=benign)
+
+
+_BENIGN = ["update_hb_name", "update_hb_data", "update_hb_type", "update_hb_client_hostname", "update_hb_data_empty",
+           "update_other", "scratch_bucket", "reads", "second_wrapper_reads"]
+
+
+def _benign(ds, b, what, k):
+    if what == "update_hb_name":
+        ds.update_bucket("hb", name=f"renamed-{k}")
+    elif what == "update_hb_data":
+        ds.update_bucket("hb", data={"edited": k, "nested": {"k": [k]}})
+    elif what == "update_hb_data_empty":
+        ds.update_bucket("hb", data={})
+    elif what == "update_hb_type":
+        ds.update_bucket("hb", type_id=f"type-{k}")
+    elif what == "update_hb_client_hostname":
+        ds.update_bucket("hb", client=f"client-{k}", hostname=f"host-{k}")
+    elif what == "update_other":
+        ds.update_bucket("other-0", name=f"other-renamed-{k}", data={"k": k})
+    elif what == "scratch_bucket":
+        sb = ds.create_bucket("scratch", type="t", client="c", hostname="h", data={"x": 1})
+        sb.insert(mk_event(dict(ts=k * 1000, dur=1000, data={"scratch": k})))
+        ds.delete_bucket("scratch")
+    elif what == "reads":
+        b.metadata(); ds.buckets(); b.get_eventcount()
+        for e in b.get(3):
+            b.get_by_id(e.id)
+    else:
+        b2 = ds["hb"]
+        b2.get(limit=1); b2.get(limit=2); b2.get_eventcount(); b2.metadata()
 
 
 def _t(e):
@@ -170,6 +204,18 @@ def run_case(case, ctx):
                 except Exception:  # noqa: BLE001 - refused, in whatever way
                     pass
                 ctx.count("refused_bucket_operations_between_heartbeats")
+            bn = (case.get("benign") or {}).get(str(k))
+            if bn:
+                before_edit = dump_store(ds, skip={"hb"})
+                _benign(ds, b, bn, k)
+                if bn == "update_other":
+                    # the other bucket's description legitimately changed; its events must not have
+                    now_ = dump_store(ds, skip={"hb"})
+                    if {i: v[1] for i, v in now_.items()} != {i: v[1] for i, v in before_edit.items()}:
+                        viols.append((f"{backend}:other-bucket-changed", f"events of another bucket changed by its metadata update after heartbeat #{k}"))
+                        break
+                    others0 = now_
+                ctx.count("accepted_bucket_operations_between_heartbeats")
             got = Counter(t[1:] for t in (obs(e) for e in b.get(-1)))
             want_ref = ref_reduce(tuples[first:k + 1], pu)
             want_real = [_t(e) for e in hbm.heartbeat_reduce(copy.deepcopy(stream[first:k + 1]), p)]
